@@ -90,6 +90,9 @@ def run(chk):
             if len(chk.samples) < 12:
                 chk.sample({"site": role, "inst": o['inst'], "A": o['A'], "B": o['B'], "equal": o['equal']})
     chk.floor('R19.2', 'admissible (site, implementor) obligations', n_adm, 7 * 2 + 6 * 3)
+    if chk.tier == 'thorough':
+        from .. import witness
+        witness.mono_matrix(chk)
     chk.note('implementors', f['traits'])
     chk.explanation = (
         "Generic proof: each of the %d call sites of the private unsafe fn cast_unchecked lies in the then-branch of "
